@@ -217,6 +217,11 @@ class ThreadsAdapter:
             sched.spawn('T%d' % (i + 1), runner(op))
         sched.start()
 
+    def close(self):
+        if self.sched is not None:
+            self.sched.teardown()
+            self.sched = None
+
     def apply(self, a):
         self.sched.step('T%d' % a['i'], 'run')
         return {}
